@@ -1039,7 +1039,7 @@ def frontLine (d : QtyDef) : String :=
       | some _ => (match u.scale with | some l => "l:" ++ canonLit l | none => "missing")
       | none => "-"
     s!"{Text.toString u.ident},s:{hexOfText u.name},s:{hexOfText u.symbol},p:{o u.pfx},{sc}"))
-  s!"ok {Text.toString d.name} ref={o d.refIdent} derived={der}{String.join units} # {"; ".intercalate (frontImpls d)} # consts {consts} # variants {variants} # arms {arms}"
+  s!"ok {Text.toString d.name} ref={o d.refIdent} derived={der}{String.join units} # {"; ".intercalate (frontImpls d)} # consts {consts} # variants {variants} # arms {arms} # items "
 
 
 /-- the amount text `Quantity::fmt` builds in the binary64 configuration: `Display` (with the optional
